@@ -1,2 +1,103 @@
 //! Facade fragment "system" (see mod.rs): re-exports / wrappers the simulator needs
-//! from crate::system-related code. Owned by the world that uses it.
+//! from crate::system-related code. Owned by world w1x (NTS client + NTPv5 extras).
+
+use crate::source::ProtocolVersion;
+
+pub use crate::packet::v5::server_reference_id::RemoteBloomFilter;
+pub use crate::packet::{AesSivCmac256, AesSivCmac512};
+
+/// State of the remote Bloom filter transfer of one source.
+#[derive(Debug, Clone, PartialEq, Eq)]
+pub struct XBloomView {
+    pub bytes: [u8; 512],
+    pub chunk_size: u16,
+    pub next_to_request: u16,
+    /// (offset, client cookie) of the outstanding chunk request
+    pub last_requested: Option<(u16, [u8; 8])>,
+    pub filled: bool,
+}
+
+/// Everything about an `NtpSource` the w1x oracles compare before/after an event.
+#[derive(Debug, Clone, PartialEq, Eq)]
+pub struct XSourceView {
+    pub nts: bool,
+    /// cookies held, oldest first
+    pub stash: Vec<Vec<u8>>,
+    pub remote_min_poll: i8,
+    pub last_poll: i8,
+    pub protocol_version: ProtocolVersion,
+    pub reach: u8,
+    pub tries: usize,
+    pub have_deny_rstr: bool,
+    pub pending: bool,
+    pub pending_valid: bool,
+    pub stratum: u8,
+    pub reference_id: [u8; 4],
+    pub source_id: [u8; 4],
+    pub bloom: XBloomView,
+}
+
+/// NTS client sessions minted in-crate (instead of a full key exchange).
+pub mod ntsclient {
+    use crate::cookiestash::CookieStash;
+    use crate::keyset::{DecodedServerCookie, KeySet};
+    use crate::nts::AeadAlgorithm;
+    use crate::packet::{AesSivCmac256, AesSivCmac512, Cipher};
+    use crate::source::SourceNtsData;
+
+    /// Key length in bytes for the two supported AEADs.
+    pub fn key_len(alg512: bool) -> usize {
+        if alg512 { 64 } else { 32 }
+    }
+
+    pub fn cipher(alg512: bool, key: &[u8]) -> Box<dyn Cipher> {
+        if alg512 {
+            Box::new(AesSivCmac512::try_from(key.iter().copied()).expect("64-byte key"))
+        } else {
+            Box::new(AesSivCmac256::try_from(key).expect("32-byte key"))
+        }
+    }
+
+    fn decoded(alg512: bool, c2s: &[u8], s2c: &[u8]) -> DecodedServerCookie {
+        DecodedServerCookie {
+            algorithm: if alg512 {
+                AeadAlgorithm::AeadAesSivCmac512
+            } else {
+                AeadAlgorithm::AeadAesSivCmac256
+            },
+            s2c: cipher(alg512, s2c),
+            c2s: cipher(alg512, c2s),
+        }
+    }
+
+    /// A server cookie for the session (what a key exchange would hand out).
+    pub fn mint_cookie(keyset: &KeySet, alg512: bool, c2s: &[u8], s2c: &[u8]) -> Vec<u8> {
+        keyset.encode_cookie(&decoded(alg512, c2s, s2c))
+    }
+
+    /// Does the key set still accept this cookie (and for which keys)?
+    pub fn cookie_keys(keyset: &KeySet, cookie: &[u8]) -> Option<(Vec<u8>, Vec<u8>)> {
+        keyset
+            .decode_cookie(cookie)
+            .ok()
+            .map(|d| (d.c2s.key_bytes().to_vec(), d.s2c.key_bytes().to_vec()))
+    }
+
+    /// Client side of a finished key exchange: keys plus the initial cookies in delivery order.
+    pub fn nts_data(alg512: bool, c2s: &[u8], s2c: &[u8], cookies: &[Vec<u8>]) -> Box<SourceNtsData> {
+        let mut stash = CookieStash::default();
+        for c in cookies {
+            stash.store(c.clone());
+        }
+        Box::new(SourceNtsData {
+            cookies: stash,
+            c2s: cipher(alg512, c2s),
+            s2c: cipher(alg512, s2c),
+        })
+    }
+}
+
+/// Raw bytes of a reference id (for comparison with header bytes seen on the simulated wire).
+pub fn refid_bytes(r: crate::ReferenceId) -> [u8; 4] {
+    r.to_bytes()
+}
